@@ -42,6 +42,21 @@ def main():
                     pass
         except Exception:
             pass
+        # ... and runs that FAIL part-way through (two routes whose generated names collide, in a
+        # namespace that has already made the backend register imports and emit types): whatever a
+        # backend keeps on its class or module must not survive an aborted run either
+        fail = ('namespace zzfail\n\nstruct Holder\n    a List(String)\n    b Map(String, Int64)?\n'
+                '    c Timestamp("%Y")\n    d Holder?\n\nunion Choice\n    x\n    y Holder\n\n'
+                'route fetch:2(Holder, Choice, Void)\n\nroute fetch_v2(Holder, Choice, Void)\n')
+        try:
+            for cfg in order.split(','):
+                api2 = specs_to_ir(cfgfiles + [('zzfail.stone', fail)])
+                try:
+                    B.run_backend(api2, cfg, os.path.join(outdir, '_fail_' + cfg))
+                except BackendException:
+                    pass
+        except Exception:
+            pass
     wl = None
     if whitelist == '1':
         api = specs_to_ir(files)
